@@ -32,7 +32,27 @@
 #include "upipe-modules/upipe_setrap.h"
 #include "upipe-modules/upipe_dup.h"
 #include "upipe-modules/upipe_genaux.h"
+#include "upipe-modules/upipe_time_limit.h"
+#include "upipe-modules/upipe_video_blank.h"
+#include "upipe-modules/upipe_void_source.h"
+#include "upipe-modules/upipe_rtp_decaps.h"
+#include "upipe-modules/upipe_blit.h"
 #include "upipe-ts/upipe_ts_align.h"
+#include "upipe/uref_pic_flow.h"
+#include "upipe/uref_clock.h"
+#include "upipe/uref_std.h"
+#include "upipe/uprobe_uref_mgr.h"
+#include "upipe/uprobe_ubuf_mem.h"
+#include "upipe/uprobe_uclock.h"
+#include "upipe/upipe_helper_upipe.h"
+#include "upipe/upipe_helper_urefcount.h"
+#include "upipe/upipe_helper_void.h"
+#include "upipe/upipe_helper_inner.h"
+#include "upipe/upipe_helper_bin_input.h"
+#include "upipe/upipe_helper_bin_output.h"
+#include "upipe/upipe_helper_uclock.h"
+#include "upipe/upipe_helper_uref_mgr.h"
+#include "upipe/upipe_helper_ubuf_mgr.h"
 #ifndef C12_QUEUE
 #define C12_QUEUE 0
 #endif
@@ -47,10 +67,14 @@
 #define MAXN    6                   /* chain nodes (queue: <=2 + qsink + qsrc + <=2) */
 #define MAXMN   (MAXN * 3)          /* + two model slots per node for the inner pipe of a bin */
 #define NSLOT   8                   /* harness request slots */
-#define NS      (NSLOT + MAXN)      /* + one pseudo slot per node: the pipe's own request (genaux) */
+#define NOWN    2                   /* requests of its own a node can have (video_blank: flow_format + ubuf_mgr; void_source: uref_mgr + uclock) */
+#define NS      (NSLOT + NOWN * MAXN)   /* + pseudo slots: the pipes' own requests */
+#define PS(k, j)   (NSLOT + NOWN * (k) + (j))
+#define PS_NODE(s) (((s) - NSLOT) / NOWN)
+#define PS_J(s)    (((s) - NSLOT) % NOWN)
 #define MAXENT  40
 #define MAXCB   64
-#define MAXMSG  1024
+#define MAXMSG  2048
 #define MAXANS  160
 #define MAXCAND 6
 #define MAXOPS_Q 70
@@ -61,26 +85,47 @@
 #define IS_TAIL(t) ((t) >= TT0)
 
 enum { NK_IDEM, NK_SKIP, NK_DELAY, NK_SETATTR, NK_PROBE_UREF, NK_SETFLOWDEF, NK_SETRAP, NK_HTONS, NK_MATCH_ATTR, NK_DUP,
-       NK_GENAUX, NK_BIN, NK_NKINDS, NK_QSINK, NK_QSRC };
+       NK_GENAUX, NK_BIN, NK_NKINDS, NK_QSINK, NK_QSRC,
+       /* kinds with requests of their own through the helpers (appended: the first 12 codes decode as before) */
+       NK_TIME_LIMIT,       /* upipe_helper_uclock: requires after every successful control command as long as it has no clock */
+       NK_VIDEO_BLANK,      /* upipe_helper_flow_format then upipe_helper_ubuf_mgr: set_flow_def requires a flow format, its answer requires a ubuf_mgr, whose answer becomes the output flow definition */
+       NK_RTP_DECAPS,       /* upipe_helper_ubuf_mgr, demand_ubuf_mgr: set_flow_def requires and, if nothing came synchronously, throws on its probe as well */
+       NK_HBIN,             /* a bin defined below with the repository's UPIPE_HELPER_BIN_INPUT / BIN_OUTPUT / INNER / UCLOCK macros around an idem */
+       NK_VOID_SOURCE,      /* upipe_helper_uref_mgr then upipe_helper_uclock (head of the chain only: it has no input) */
+       NK_BLIT,             /* control_ubuf_mgr of upipe_helper_ubuf_mgr in front of control_output: ubuf_mgr requests from upstream stop here and are thrown on its probe
+                             * (its flow_format negotiation is not modelled: no flow_format request is generated upstream of it) */
+       NK_LAST };
+#define NK_NEW0 NK_TIME_LIMIT
+#define NK_OLD_SPAN 168      /* kind bytes below this decode as before (byte % 12); above: the new kinds */
 static const char *const kind_name[] = { "idem", "skip", "delay", "setattr", "probe_uref", "setflowdef", "setrap", "htons", "match_attr", "dup",
-                                         "genaux", "ts_align(bin)", "?", "qsink", "qsrc" };
-enum { MK_PASS, MK_GENAUX, MK_BIN, MK_QSINK, MK_QSRC };
+                                         "genaux", "ts_align(bin)", "?", "qsink", "qsrc",
+                                         "time_limit", "video_blank", "rtp_decaps", "hbin(harness bin)", "void_source", "blit" };
+enum { MK_PASS, MK_GENAUX, MK_BIN, MK_QSINK, MK_QSRC, MK_HBIN };
 
 enum { CL_SETOUT_WITH_REQ, CL_ANSWER_AFTER_REPLUMB, CL_DROP_ACROSS_QUEUE, CL_NO_PROVIDER, CL_PROBE_ANSWER, CL_DEFERRED, CL_REPEATED_ANSWER,
        CL_T_UREF_MGR, CL_T_FLOW_FORMAT, CL_T_UBUF_MGR, CL_T_UCLOCK, CL_T_SINK_LATENCY, CL_ACROSS_QUEUE, CL_RELEASE_WITH_REQ, CL_BIN_FLOWDEF_WITH_REQ,
        CL_GENAUX_STOPS, CL_OWN_REQUEST_ANSWERED, CL_CHAIN3, CL_REENTRANT, CL_UNREG_WHILE_LODGED, CL_SETOUT_NULL_WITH_REQ, CL_SAME_TYPE_TWICE,
-       CL_STALE_AND_LIVE, CL_REGISTER_MID_CHAIN, CL_BURST };
+       CL_STALE_AND_LIVE, CL_REGISTER_MID_CHAIN, CL_BURST,
+       CL_OWN_UCLOCK, CL_OWN_UREF_MGR, CL_OWN_FLOW_FORMAT, CL_OWN_UBUF_MGR_CHAINED, CL_OWN_LODGED_AT_TAIL, CL_OWN_THROWN, CL_OWN_SETOUT, CL_OWN_WITHDRAWN_AT_DEATH,
+       CL_OWN_REISSUED, CL_OWN_ACROSS_QUEUE, CL_OWN_TAIL_ANSWER, CL_DEMAND_THROWS_AGAIN, CL_VSRC_TIMER, CL_HBIN_DROP_WITH_REQ, CL_HBIN_BUILD_WITH_REQ,
+       CL_HBIN_REPLACE_WITH_REQ, CL_HBIN_UNREG_NO_INNER, CL_HBIN_REG_NO_INNER, CL_BIN_OUTPUT_REQUEST, CL_SVC_SET, CL_SVC_NEW_OBJECT_ANSWERS, CL_SVC_OFF_THEN_UNANSWERED };
 static const char *const class_names[] = {
     "set_output_with_requests_registered", "answer_after_replumbing", "provide_after_unregister_across_queue_dropped", "no_provider_provide_request_unhandled",
     "provide_request_answered_by_probe", "deferred_answer_from_tail", "repeated_answer_same_request",
     "answered_uref_mgr", "answered_flow_format", "answered_ubuf_mgr", "answered_uclock", "answered_sink_latency", "answer_crossed_queue",
     "pipe_released_with_requests_flowing", "bin_inner_replaced_with_requests", "genaux_stops_ubuf_mgr_or_flow_format", "pipe_own_request_answered",
     "chain_of_3plus", "callback_re_requires_other_request", "unregister_while_lodged_at_tail", "set_output_null_with_requests", "two_live_requests_same_type",
-    "stale_and_live_incarnation_lodged", "registered_in_mid_chain", "oob_burst", NULL };
+    "stale_and_live_incarnation_lodged", "registered_in_mid_chain", "oob_burst",
+    "own_uclock_answered(helper_uclock)", "own_uref_mgr_answered(helper_uref_mgr)", "own_flow_format_answered(helper_flow_format)", "own_ubuf_mgr_answered_after_flow_format",
+    "own_request_lodged_at_tail", "own_request_thrown_on_own_probe", "set_output_with_own_request_registered", "own_request_withdrawn_when_pipe_dies",
+    "own_request_re_required", "own_request_answer_crossed_queue", "own_request_answered_from_tail", "demand_throws_after_require", "void_source_timer_started",
+    "hbin_inner_dropped_with_requests", "hbin_inner_built_after_drop_with_requests", "hbin_inner_replaced_with_requests", "hbin_unregister_while_no_inner", "hbin_register_while_no_inner",
+    "bin_output_request_registered", "service_probe_object_set", "answer_by_replaced_service_object", "service_probe_switched_off_then_unanswered", NULL };
+#define CLS(x) ((uint64_t)1 << (x))
 
 /* ---------------------------------------------------------------- structures */
 
-struct ent { int16_t slot, q; uint32_t gen; uint8_t type, dictv; bool reg; };
+struct ent { int16_t slot, q; uint32_t gen; uint8_t type, dictv; bool reg; int16_t krid, base; };   /* krid: the x.rid attribute its dictionary carries (the slot, except for a request built from another one's answer) */
 
 struct mnode {
     int mk;
@@ -89,6 +134,7 @@ struct mnode {
     int probe;              /* recording probe that logs this pipe's provide_request events */
     int n; struct ent l[MAXENT];
     int inner;              /* MK_BIN: model node of the inner pipe or -1 */
+    unsigned stops;         /* bit per request type that control_ubuf_mgr, called in front of the other helpers, throws on the pipe's probe and lets go no further (hbin: ubuf_mgr, flow_format; blit: ubuf_mgr) */
 };
 
 struct rnode {              /* real side */
@@ -97,9 +143,14 @@ struct rnode {              /* real side */
     int probe;
     bool held, dead;
     bool sideB;
-    int nflowdefs;          /* bin / genaux: flow definitions set so far */
-    int own_ans;            /* genaux: -1 = own request not answered since it was (re)issued; else answer id (0 = service probe) */
+    int nflowdefs;          /* bin / genaux / video_blank / rtp_decaps: flow definitions set so far; hbin: inner pipes built so far */
+    int own_ans;            /* genaux, video_blank: -1 = nothing stored as output flow definition yet; else the answer id the stored format carries (0 = service probe) */
+    struct { int obj; } own[NOWN];  /* identity of the object the helper stores for the own request j: -1 none, > 0 answer id, <= -2 service object generation */
+    int um_base;            /* video_blank: answer id of the flow format its current ubuf_mgr request was built from */
+    bool timer;             /* void_source: it has what it needs, its timer must exist */
+    void *own_ptr[NOWN];    /* hbin: the uclock / uref manager its helpers must be holding */
 };
+struct bolist { int n; struct ent l[4]; };     /* hbin: the request list of upipe_helper_bin_output */
 
 struct slot {
     struct urequest req;
@@ -134,8 +185,17 @@ struct ctx {
     struct pfx pfx;
     int ret;
     uint64_t hash;
-    uint32_t cls;
+    uint64_t cls;
     int nn;
+    struct bolist bo[MAXN];
+    /* service probes: the probe, whether it answers now, the object it answers with, how often it was replaced */
+    struct uprobe *svc_probe[3];
+    bool svc_on[3];
+    void *svc_obj[3], *svc_orig[3];
+    int svc_gen[3];
+    struct uref_mgr *alt_uref_mgr; struct umem_mgr *alt_umem; struct uclock *alt_uclock;
+    bool svc_was_off[3];
+    bool has_blit;
     struct rnode rn[MAXN];
     struct mnode mn[MAXMN];
     struct tail tl[2];
@@ -151,6 +211,8 @@ struct ctx {
     /* per-operation window */
     int ev_mark, rec_mark;
     int exp_throw[PFX_MAX_PROBES], opt_throw[PFX_MAX_PROBES];
+    int exp_reg[2], exp_unreg[2];   /* register / unregister commands each tail must receive in this operation */
+    int act_reg[2], act_unreg[2];
     int nexp; struct expcb exp[MAXCB];
     int ncb; struct cbrec cb[MAXCB];
     bool in_action, m_in_action;
@@ -180,19 +242,148 @@ static const char *tgt_name(int t)
     snprintf(b[i], sizeof b[i], "p%d", t); return b[i];
 }
 
+/* ---------------------------------------------------------------- hbin: a bin written with the repository's own helper macros
+ *
+ * The pattern of upipe_ffmt / upipe_fdec / upipe_blksrc / upipe_autoin (which cannot be compiled here): one inner pipe (an idem) that the bin drops
+ * (store_bin_input(NULL), store_bin_output(NULL)), builds again or replaces directly, and, as upipe_seg_src / upipe_seq_src do, a uclock request of
+ * the bin itself that goes straight to the bin's output through register_bin_output_request. */
+#define HBIN_SIGNATURE UBASE_FOURCC('c','1','2','b')
+struct hbin {
+    struct urefcount urefcount;
+    struct uprobe proxy_probe;
+    struct uchain input_request_list;
+    struct uchain output_request_list;
+    struct upipe *first_inner;
+    struct upipe *last_inner;
+    struct upipe *output;
+    struct uclock *uclock;
+    struct urequest uclock_request;
+    struct uref_mgr *uref_mgr;
+    struct urequest uref_mgr_request;
+    struct ubuf_mgr *ubuf_mgr;          /* never required: only control_ubuf_mgr of this helper is used */
+    struct uref *flow_format;
+    struct urequest ubuf_mgr_request;
+    bool stops_ubuf;                    /* a bin that answers ubuf_mgr / flow_format requests itself (through its probe), as upipe_blit does with control_ubuf_mgr */
+    struct upipe upipe;
+};
+static void hbin_free(struct upipe *upipe);
+UPIPE_HELPER_UPIPE(hbin, upipe, HBIN_SIGNATURE)
+UPIPE_HELPER_UREFCOUNT(hbin, urefcount, hbin_free)
+UPIPE_HELPER_VOID(hbin)
+UPIPE_HELPER_INNER(hbin, first_inner)
+UPIPE_HELPER_BIN_INPUT(hbin, first_inner, input_request_list)
+UPIPE_HELPER_INNER(hbin, last_inner)
+UPIPE_HELPER_BIN_OUTPUT(hbin, last_inner, output, output_request_list)
+UPIPE_HELPER_UCLOCK(hbin, uclock, uclock_request, NULL, hbin_register_bin_output_request, hbin_unregister_bin_output_request)
+UPIPE_HELPER_UREF_MGR(hbin, uref_mgr, uref_mgr_request, NULL, hbin_register_bin_output_request, hbin_unregister_bin_output_request)
+UPIPE_HELPER_UBUF_MGR(hbin, ubuf_mgr, flow_format, ubuf_mgr_request, NULL, hbin_register_bin_output_request, hbin_unregister_bin_output_request)
+
+static int hbin_proxy_probe(struct uprobe *uprobe, struct upipe *inner, int event, va_list args)
+{
+    struct hbin *h = container_of(uprobe, struct hbin, proxy_probe);
+    return upipe_throw_proxy(hbin_to_upipe(h), inner, event, args);
+}
+
+static struct upipe *hbin_alloc(struct upipe_mgr *mgr, struct uprobe *uprobe, uint32_t signature, va_list args)
+{
+    struct upipe *upipe = hbin_alloc_void(mgr, uprobe, signature, args);
+    if (unlikely(upipe == NULL)) return NULL;
+    struct hbin *h = hbin_from_upipe(upipe);
+    hbin_init_urefcount(upipe);
+    hbin_init_bin_input(upipe);
+    hbin_init_bin_output(upipe);
+    hbin_init_uclock(upipe);
+    hbin_init_uref_mgr(upipe);
+    hbin_init_ubuf_mgr(upipe);
+    h->stops_ubuf = false;
+    uprobe_init(&h->proxy_probe, hbin_proxy_probe, NULL);
+    h->proxy_probe.refcount = NULL;
+    upipe_throw_ready(upipe);
+    return upipe;
+}
+
+static void hbin_build_inner(struct upipe *upipe)      /* also replaces an existing inner pipe directly */
+{
+    struct hbin *h = hbin_from_upipe(upipe);
+    struct upipe *inner = upipe_void_alloc(upipe_idem_mgr_alloc(), uprobe_use(&h->proxy_probe));
+    if (!inner) return;
+    hbin_store_bin_input(upipe, upipe_use(inner));
+    hbin_store_bin_output(upipe, inner);
+}
+
+static void hbin_drop_inner(struct upipe *upipe)
+{
+    hbin_store_bin_input(upipe, NULL);
+    hbin_store_bin_output(upipe, NULL);
+}
+
+static int hbin_control(struct upipe *upipe, int command, va_list args)
+{
+    if (hbin_from_upipe(upipe)->stops_ubuf && (command == UPIPE_REGISTER_REQUEST || command == UPIPE_UNREGISTER_REQUEST)) {
+        /* control_ubuf_mgr in front of the other helpers.  Its answer to register_request is what the probes answered: UBASE_ERR_UNHANDLED then
+         * means "nobody provided", not "not my command" (UBASE_HANDLED_RETURN would pass the request on to the next helper: see NK_BLIT) */
+        va_list args_copy;
+        va_copy(args_copy, args);
+        struct urequest *urequest = va_arg(args_copy, struct urequest *);
+        va_end(args_copy);
+        if (urequest->type == UREQUEST_UBUF_MGR || urequest->type == UREQUEST_FLOW_FORMAT)
+            return hbin_control_ubuf_mgr(upipe, command, args);
+    }
+    switch (command) {
+    case UPIPE_REGISTER_REQUEST:
+    case UPIPE_UNREGISTER_REQUEST:
+        return hbin_control_bin_input(upipe, command, args);
+    case UPIPE_ATTACH_UCLOCK:
+        hbin_require_uclock(upipe);
+        return UBASE_ERR_NONE;
+    }
+    int err = hbin_control_bin_input(upipe, command, args);
+    if (err == UBASE_ERR_UNHANDLED) return hbin_control_bin_output(upipe, command, args);
+    return err;
+}
+
+static void hbin_free(struct upipe *upipe)
+{
+    struct hbin *h = hbin_from_upipe(upipe);
+    upipe_throw_dead(upipe);
+    hbin_clean_uclock(upipe);
+    hbin_clean_uref_mgr(upipe);
+    hbin_clean_ubuf_mgr(upipe);
+    hbin_clean_bin_input(upipe);
+    hbin_clean_bin_output(upipe);
+    uprobe_clean(&h->proxy_probe);
+    hbin_clean_urefcount(upipe);
+    hbin_free_void(upipe);
+}
+
+static struct upipe_mgr hbin_mgr = { .refcount = NULL, .signature = HBIN_SIGNATURE, .upipe_alloc = hbin_alloc, .upipe_input = hbin_bin_input, .upipe_control = hbin_control };
+
 /* ---------------------------------------------------------------- service probes: who answers a thrown provide_request */
 
+enum { SVC_UREF_MGR, SVC_UBUF_MEM, SVC_UCLOCK };
+static int svc_of(int type) { return type == UREQUEST_UREF_MGR ? SVC_UREF_MGR : type == UREQUEST_UCLOCK ? SVC_UCLOCK : SVC_UBUF_MEM; }
+
+/* svc_on: the probe is in the chain and holds an object (uprobe_*_set(NULL) makes it pass every event on) */
 static bool svc_answers(struct ctx *c, const struct ent *e)
 {
     switch (e->type) {
-    case UREQUEST_UREF_MGR: return c->pfx.cfg.with_uref_mgr;           /* uprobe_uref_mgr */
-    case UREQUEST_FLOW_FORMAT: return c->pfx.cfg.with_ubuf_mem;        /* uprobe_ubuf_mem: dup of the proposed format */
-    case UREQUEST_UBUF_MGR: return c->pfx.cfg.with_ubuf_mem && e->dictv != 2;   /* only for a flow format it can allocate for ("block.") */
-    case UREQUEST_UCLOCK: return c->pfx.cfg.with_uclock;               /* uprobe_uclock */
-    case UREQUEST_SINK_LATENCY: return c->pfx.cfg.with_ubuf_mem;       /* uprobe_ubuf_mem answers 0 */
+    case UREQUEST_UREF_MGR: return c->svc_on[SVC_UREF_MGR];            /* uprobe_uref_mgr */
+    case UREQUEST_FLOW_FORMAT: return c->svc_on[SVC_UBUF_MEM];         /* uprobe_ubuf_mem: dup of the proposed format */
+    case UREQUEST_UBUF_MGR: return c->svc_on[SVC_UBUF_MEM] && e->dictv != 2 && e->dictv != 5;   /* only for a flow format it can allocate for ("block.", "pic." with planes) */
+    case UREQUEST_UCLOCK: return c->svc_on[SVC_UCLOCK];                /* uprobe_uclock */
+    case UREQUEST_SINK_LATENCY: return c->svc_on[SVC_UBUF_MEM];        /* uprobe_ubuf_mem answers 0 */
     }
     return false;
 }
+
+/* identity of a provided object as the helpers compare it ("same object as the one I hold: nothing to do") */
+#define ANS_ALT (-10)        /* answer codes: > 0 provided at a tail; 0 by a service probe holding its first object; ANS_ALT by a service probe holding the object set later */
+static int svc_code(struct ctx *c, int type)
+{
+    if (type == UREQUEST_FLOW_FORMAT || type == UREQUEST_SINK_LATENCY) return 0;       /* a copy of the format / latency 0: the umem manager plays no part */
+    return c->svc_obj[svc_of(type)] == c->svc_orig[svc_of(type)] ? 0 : ANS_ALT;
+}
+static int objid(int ans) { return ans > 0 ? ans : ans == ANS_ALT ? -3 : -2; }
 
 /* ---------------------------------------------------------------- model */
 
@@ -214,6 +405,11 @@ static int ent_add(struct ctx *c, struct mnode *m, struct ent e)
 static void m_callback(struct ctx *c, int slot, int ans);
 static int m_deliver_reg(struct ctx *c, int tgt, struct ent e);
 static void m_deliver_unreg(struct ctx *c, int tgt, struct ent e);
+static void m_after_control(struct ctx *c, int k);
+
+/* The model of a slot's registration state is separate from slot.reg (the real one) because the model runs after the real operation. */
+static bool m_slot_reg[NS];
+static struct ent m_slot_ent[NS];
 
 static void m_answer(struct ctx *c, struct ent e, int ans)
 {
@@ -231,14 +427,18 @@ static int m_throw(struct ctx *c, int probe, struct ent e, bool optional)
     if (optional) c->opt_throw[probe]++; else c->exp_throw[probe]++;
     if (svc_answers(c, &e)) {
         if (optional) {     /* only reachable when a tail answered UNHANDLED during set_output (see m_set_output) */
-            if (c->nexp < MAXCB) { struct expcb *x = &c->exp[c->nexp++]; memset(x, 0, sizeof *x); x->ans = 0; x->ncand = 1; x->cand[0].slot = e.slot; x->cand[0].q = e.q; x->optional = true; x->tail = -1; }
+            if (c->nexp < MAXCB) { struct expcb *x = &c->exp[c->nexp++]; memset(x, 0, sizeof *x); x->ans = svc_code(c, e.type); x->ncand = 1; x->cand[0].slot = e.slot; x->cand[0].q = e.q; x->optional = true; x->tail = -1; }
             return 0;
         }
         c->cls |= 1u << CL_PROBE_ANSWER;
-        m_answer(c, e, 0);
+        if (c->svc_obj[svc_of(e.type)] != c->svc_orig[svc_of(e.type)]) c->cls |= CLS(CL_SVC_NEW_OBJECT_ANSWERS);
+        m_answer(c, e, svc_code(c, e.type));
         return 0;
     }
-    if (!optional) c->cls |= 1u << CL_NO_PROVIDER;
+    if (!optional) {
+        c->cls |= 1u << CL_NO_PROVIDER;
+        if (c->svc_was_off[svc_of(e.type)] && !c->svc_on[svc_of(e.type)]) c->cls |= CLS(CL_SVC_OFF_THEN_UNANSWERED);
+    }
     return 1;
 }
 
@@ -253,6 +453,7 @@ static int m_roq(struct ctx *c, int k, struct ent e)
         int r = m_deliver_reg(c, m->out, e);
         if (r != 1) return r;
     }
+    if (e.slot >= NSLOT && e.q < 0 && PS_NODE(e.slot) == k) c->cls |= CLS(CL_OWN_THROWN);
     return m_throw(c, m->probe, e, false);
 }
 
@@ -278,6 +479,8 @@ static int m_deliver_reg(struct ctx *c, int tgt, struct ent e)
         if (t->nm >= MAXENT) { INTERNAL("model tail overflow"); return 0; }
         e.reg = true;
         t->m[t->nm++] = e;
+        c->exp_reg[tgt - TT0]++;
+        if (e.slot >= NSLOT) c->cls |= CLS(CL_OWN_LODGED_AT_TAIL);
         switch (t->policy) {
         case PFX_REQ_HOLD: return 0;
         case PFX_REQ_UNHANDLED: return 1;
@@ -289,10 +492,13 @@ static int m_deliver_reg(struct ctx *c, int tgt, struct ent e)
     case MK_GENAUX:
         if (genaux_stops(e.type)) { c->cls |= 1u << CL_GENAUX_STOPS; return m_throw(c, m->probe, e, false); }
         return m_roq(c, tgt, e);
-    case MK_BIN: {
+    case MK_BIN:
+    case MK_HBIN: {
+        if (m->stops & (1u << e.type)) { c->cls |= 1u << CL_GENAUX_STOPS; return m_throw(c, m->probe, e, false); }
         e.reg = false;
         int i = ent_add(c, m, e);
         if (m->inner >= 0) { m->l[i].reg = true; return m_deliver_reg(c, m->inner, e); }
+        if (m->mk == MK_HBIN) c->cls |= CLS(CL_HBIN_REG_NO_INNER);
         return m_throw(c, m->probe, e, false);
     }
     case MK_QSINK: {
@@ -302,8 +508,12 @@ static int m_deliver_reg(struct ctx *c, int tgt, struct ent e)
         c->dq[c->dqt].kind = DM_REG; c->dq[c->dqt].e = e; c->dqt++;
         return 0;
     }
-    default:
-        return m_roq(c, tgt, e);
+    default: {
+        if (m->stops & (1u << e.type)) { c->cls |= 1u << CL_GENAUX_STOPS; return m_throw(c, m->probe, e, false); }
+        int r = m_roq(c, tgt, e);
+        if (r == 0) m_after_control(c, tgt);    /* pipes that run their check function after every successful control command */
+        return r;
+    }
     }
 }
 
@@ -312,6 +522,7 @@ static void m_deliver_unreg(struct ctx *c, int tgt, struct ent e)
     if (c->ret) return;
     if (IS_TAIL(tgt)) {
         struct tail *t = &c->tl[tgt - TT0];
+        c->exp_unreg[tgt - TT0]++;
         for (int i = 0; i < t->nm; i++)
             if (t->m[i].slot == e.slot && t->m[i].q == e.q) { for (; i + 1 < t->nm; i++) t->m[i] = t->m[i + 1]; t->nm--; return; }
         INTERNAL("model: unregister at tail%d of a request it does not hold", tgt - TT0);
@@ -323,12 +534,15 @@ static void m_deliver_unreg(struct ctx *c, int tgt, struct ent e)
         if (genaux_stops(e.type)) return;
         m_uoq(c, tgt, e);
         return;
-    case MK_BIN: {
+    case MK_BIN:
+    case MK_HBIN: {
+        if (m->stops & (1u << e.type)) return;
         int i = ent_find(m, e.slot, e.q);
         if (i < 0) { INTERNAL("model: bin does not hold the request"); return; }
         bool was = m->l[i].reg;
         ent_del(m, i);
         if (m->inner >= 0 && was) m_deliver_unreg(c, m->inner, e);
+        else if (m->mk == MK_HBIN && m->inner < 0) c->cls |= CLS(CL_HBIN_UNREG_NO_INNER);
         return;
     }
     case MK_QSINK: {
@@ -341,7 +555,9 @@ static void m_deliver_unreg(struct ctx *c, int tgt, struct ent e)
         return;
     }
     default:
+        if (m->stops & (1u << e.type)) return;
         m_uoq(c, tgt, e);
+        m_after_control(c, tgt);
     }
 }
 
@@ -365,7 +581,8 @@ static void m_set_output(struct ctx *c, int k, int new)
         int r = m_deliver_reg(c, new, e);
         /* The helper ignores the answer here.  When the new output does not handle requests at all
          * (UNHANDLED) nothing says whether the pipe should fall back to its probe as it does in
-         * register_output_request: both behaviours are accepted. */
+         * register_output_request: both behaviours are accepted.  (A pipe's own request is then taken as
+         * not answered, which is what the helper as written does.) */
         if (r == 1) m_throw(c, m->probe, e, true);
     }
 }
@@ -394,23 +611,165 @@ static void m_bin_set_flow_def(struct ctx *c, int k)
     if (b->out != T_NONE) m_set_output(c, ni, b->out);
 }
 
+/* store_bin_input(NULL) + store_bin_output(NULL): the proxies are withdrawn from the first inner pipe, which then goes away */
+static void m_bin_drop_inner(struct ctx *c, int k)
+{
+    struct mnode *b = MN(c, k);
+    int old = b->inner;
+    if (old < 0) return;
+    for (int i = 0; i < b->n; i++) { b->l[i].reg = false; m_deliver_unreg(c, old, b->l[i]); }
+    MN(c, old)->exists = false; MN(c, old)->out = T_NONE;
+    b->inner = -1;
+}
+
 static void m_node_set_output(struct ctx *c, int k, int new)
 {
     struct mnode *m = MN(c, k);
     if (m->mk == MK_BIN) {
         if (m->inner >= 0) m_set_output(c, m->inner, new);
         m->out = new;
-    } else m_set_output(c, k, new);
+    } else if (m->mk == MK_HBIN) {
+        /* set_bin_output: the bin's own output requests leave the old output, the last inner pipe is re-plumbed, then they are registered on the new one */
+        struct bolist *b = &c->bo[k];
+        if (m->out != T_NONE) for (int i = 0; i < b->n; i++) m_deliver_unreg(c, m->out, b->l[i]);
+        m->out = T_NONE;
+        if (m->inner >= 0) m_set_output(c, m->inner, new);
+        m->out = new;
+        if (new != T_NONE) for (int i = 0; i < b->n; i++) m_deliver_reg(c, new, b->l[i]);
+    } else {
+        m_set_output(c, k, new);
+        m_after_control(c, k);
+    }
+}
+
+/* ---------------------------------------------------------------- the pipes' own requests (upipe_helper_uclock / uref_mgr / flow_format / ubuf_mgr)
+ *
+ * What the helpers document: require_X withdraws the previous request if there is one (UNREGISTER function), drops the object held, initialises the
+ * request anew and hands it to the REGISTER function (for the repository pipes: register_output_request of upipe_helper_output, so it is lodged at the
+ * output or thrown on the pipe's probe; for hbin: register_bin_output_request); provide_X stores the object unless it is the one already held and then
+ * calls the pipe's check function; nothing is unregistered by clean_X: the output helper withdraws what is left in its list when the pipe dies.
+ * When the pipes call require_X is read from their sources (see the kinds' comments). */
+
+static void own_register(struct ctx *c, int k, struct ent e)
+{
+    if (MN(c, k)->mk == MK_HBIN) {      /* register_bin_output_request: to the bin's output, or (no output) thrown on the bin's probe */
+        struct bolist *b = &c->bo[k];
+        if (b->n >= 4) { INTERNAL("bin output list overflow"); return; }
+        b->l[b->n++] = e;
+        c->cls |= CLS(CL_BIN_OUTPUT_REQUEST);
+        if (MN(c, k)->out != T_NONE) m_deliver_reg(c, MN(c, k)->out, e);
+        else { c->cls |= CLS(CL_OWN_THROWN); m_throw(c, MN(c, k)->probe, e, false); }
+    } else m_roq(c, k, e);
+}
+
+static void own_unregister(struct ctx *c, int k, struct ent e)
+{
+    if (MN(c, k)->mk == MK_HBIN) {      /* unregister_bin_output_request */
+        struct bolist *b = &c->bo[k];
+        int i;
+        for (i = 0; i < b->n; i++) if (b->l[i].slot == e.slot) break;
+        if (i == b->n) { INTERNAL("model: bin output list does not hold the request"); return; }
+        for (; i + 1 < b->n; i++) b->l[i] = b->l[i + 1];
+        b->n--;
+        if (MN(c, k)->out != T_NONE) m_deliver_unreg(c, MN(c, k)->out, e);
+    } else m_uoq(c, k, e);
+}
+
+static void own_require(struct ctx *c, int k, int j, int type, int dictv, int krid, uint32_t gen)
+{
+    int ps = PS(k, j);
+    struct rnode *r = &c->rn[k];
+    if (m_slot_reg[ps]) { m_slot_reg[ps] = false; c->cls |= CLS(CL_OWN_REISSUED); own_unregister(c, k, m_slot_ent[ps]); }
+    r->own[j].obj = -1;
+    struct slot *s = &c->slot[ps];
+    s->id = ps; s->type = type; s->dictv = dictv; s->at = k; s->gen = gen; s->inited = true; s->action = -1;
+    struct ent e = { .slot = ps, .q = -1, .gen = gen, .type = type, .dictv = dictv, .reg = false, .krid = krid, .base = (int16_t)r->um_base };
+    m_slot_ent[ps] = e; m_slot_reg[ps] = true;
+    own_register(c, k, e);
+}
+
+/* upipe_time_limit_check / upipe_voidsrc_check, run after every control command that succeeded and from the provide callbacks */
+static void m_check(struct ctx *c, int k)
+{
+    struct rnode *r = &c->rn[k];
+    if (r->dead) return;
+    switch (r->kind) {
+    case NK_TIME_LIMIT:
+        if (r->own[0].obj == -1) own_require(c, k, 0, UREQUEST_UCLOCK, 0, PS(k, 0), 0);
+        break;
+    case NK_VOID_SOURCE:
+        if (r->own[0].obj == -1) { own_require(c, k, 0, UREQUEST_UREF_MGR, 0, PS(k, 0), 0); return; }
+        if (r->own[1].obj == -1) { own_require(c, k, 1, UREQUEST_UCLOCK, 0, PS(k, 1), 0); return; }
+        if (!r->timer) { r->timer = true; c->cls |= CLS(CL_VSRC_TIMER); }
+        break;
+    }
+}
+
+static void m_after_control(struct ctx *c, int k)
+{
+    if (k < 0 || k >= c->nn) return;    /* inner pipes of the bins are idems */
+    m_check(c, k);
+}
+
+/* the provide callback of a pipe's own request */
+static void m_own_provide(struct ctx *c, int ps, int ans)
+{
+    int k = PS_NODE(ps), j = PS_J(ps);
+    struct rnode *r = &c->rn[k];
+    if (!m_slot_reg[ps] || r->dead) return;
+    int type = m_slot_ent[ps].type;
+    int id = objid(ans);
+    (void)type;
+    c->cls |= 1u << CL_OWN_REQUEST_ANSWERED;
+    if (ans > 0) c->cls |= CLS(CL_OWN_TAIL_ANSWER);
+    switch (r->kind) {
+    case NK_GENAUX:             /* its check function stores the provided format as flow definition */
+        r->own_ans = ans > 0 ? ans : 0;
+        break;
+    case NK_TIME_LIMIT:
+        c->cls |= CLS(CL_OWN_UCLOCK);
+        if (id == r->own[0].obj) return;
+        r->own[0].obj = id;
+        m_check(c, k);
+        break;
+    case NK_VOID_SOURCE:
+        c->cls |= CLS(j == 0 ? CL_OWN_UREF_MGR : CL_OWN_UCLOCK);
+        if (id == r->own[j].obj) return;
+        r->own[j].obj = id;
+        m_check(c, k);
+        break;
+    case NK_VIDEO_BLANK:
+        if (j == 0) {           /* check_flow_format: requires a ubuf_mgr for the amended format (which carries the tags of the flow-format request and of this answer) */
+            c->cls |= CLS(CL_OWN_FLOW_FORMAT);
+            r->um_base = ans > 0 ? ans : 0;
+            own_require(c, k, 1, UREQUEST_UBUF_MGR, 3, PS(k, 0), m_slot_ent[ps].gen);
+        } else {                /* check: the provided format becomes the output flow definition */
+            c->cls |= CLS(CL_OWN_UBUF_MGR_CHAINED);
+            r->own[1].obj = id;
+            r->own_ans = ans > 0 ? ans : r->um_base;
+        }
+        break;
+    case NK_RTP_DECAPS:
+        r->own[0].obj = id;
+        break;
+    case NK_HBIN:
+        c->cls |= CLS(j == 0 ? CL_OWN_UCLOCK : CL_OWN_UREF_MGR);
+        if (id == r->own[j].obj) return;
+        r->own[j].obj = id;
+        if (j == 0) r->own_ptr[0] = ans > 0 ? c->ans[ans].ptr : ans == ANS_ALT ? (void *)c->alt_uclock : (void *)c->pfx.uclock;
+        else r->own_ptr[1] = ans > 0 ? c->ans[ans].ptr : ans == ANS_ALT ? (void *)c->alt_uref_mgr : (void *)c->pfx.fm.uref_mgr;
+        break;
+    }
 }
 
 /* ---------------------------------------------------------------- requester side */
 
 static struct uref *mk_dict(struct ctx *c, int dictv, int rid, uint32_t gen)
 {
-    static const char *defs[] = { "block.", "block.foo.", "void.x." };
+    static const char *defs[] = { "block.", "block.foo.", "void.x.", "pic.", "block.rtp.", "void." };
     struct uref *u = uref_alloc_control(c->pfx.fm.uref_mgr);
     if (!u) return NULL;
-    uref_flow_set_def(u, defs[dictv % 3]);
+    uref_flow_set_def(u, defs[dictv % 6]);
     uref_attr_set_small_unsigned(u, rid, UDICT_TYPE_SMALL_UNSIGNED, "x.rid");
     uref_attr_set_unsigned(u, gen, UDICT_TYPE_UNSIGNED, "x.gen");
     return u;
@@ -423,6 +782,21 @@ static void key_of(struct urequest *x, int *rid, uint32_t *gen)
     uint8_t r; uint64_t g;
     if (ubase_check(uref_attr_get_small_unsigned(x->uref, &r, UDICT_TYPE_SMALL_UNSIGNED, "x.rid"))) *rid = r;
     if (ubase_check(uref_attr_get_unsigned(x->uref, &g, UDICT_TYPE_UNSIGNED, "x.gen"))) *gen = (uint32_t)g;
+}
+
+/* which umem manager does a ubuf manager provided by uprobe_ubuf_mem allocate from: the probe's first one (0), the one set later (ANS_ALT), neither (-2) */
+static int mgr_umem_code(struct ctx *c, struct ubuf_mgr *bm)
+{
+    struct ubuf *ub = ubuf_block_alloc(bm, 8);
+    if (!ub) return -2;
+    const uint8_t *p; int sz = -1; int code = -2;
+    if (ubase_check(ubuf_block_read(ub, 0, &sz, &p))) {
+        if (umem_count_lookup(c->pfx.fm.umem_mgr, p, NULL, NULL)) code = 0;
+        else if (c->alt_umem && umem_count_lookup(c->alt_umem, p, NULL, NULL)) code = ANS_ALT;
+        ubuf_block_unmap(ub, 0);
+    }
+    ubuf_free(ub);
+    return code;
 }
 
 static int uref_ans(struct uref *u)
@@ -447,15 +821,17 @@ static int req_cb(struct urequest *urequest, va_list args)
     case UREQUEST_UREF_MGR: {
         struct uref_mgr *m = va_arg(args, struct uref_mgr *);
         if (m == c->pfx.fm.uref_mgr) ans = 0;
+        else if (m == c->alt_uref_mgr && m != NULL) ans = ANS_ALT;
         else for (int i = c->nans - 1; i >= 1; i--) if (c->ans[i].type == s->type && c->ans[i].ptr == m) { ans = i; break; }
-        snprintf(what, sizeof what, "uref_mgr %s", ans == 0 ? "of the probe" : ans > 0 ? "provided at the tail" : "UNKNOWN");
+        snprintf(what, sizeof what, "uref_mgr %s", ans == 0 ? "of the probe" : ans == ANS_ALT ? "given to the probe later" : ans > 0 ? "provided at the tail" : "UNKNOWN");
         uref_mgr_release(m);
         break; }
     case UREQUEST_UCLOCK: {
         struct uclock *u = va_arg(args, struct uclock *);
         if (u == c->pfx.uclock) ans = 0;
+        else if (u == c->alt_uclock && u != NULL) ans = ANS_ALT;
         else for (int i = c->nans - 1; i >= 1; i--) if (c->ans[i].type == s->type && c->ans[i].ptr == u) { ans = i; break; }
-        snprintf(what, sizeof what, "uclock %s", ans == 0 ? "of the probe" : ans > 0 ? "provided at the tail" : "UNKNOWN");
+        snprintf(what, sizeof what, "uclock %s", ans == 0 ? "of the probe" : ans == ANS_ALT ? "given to the probe later" : ans > 0 ? "provided at the tail" : "UNKNOWN");
         uclock_release(u);
         break; }
     case UREQUEST_SINK_LATENCY: {
@@ -477,7 +853,7 @@ static int req_cb(struct urequest *urequest, va_list args)
         bool mine = u != NULL && rid == s->id && gen == s->gen;
         if (a > 0 && a < c->nans && c->ans[a].type == s->type && mine && (s->type != UREQUEST_UBUF_MGR || bm == c->pfx.fm.block_mgr)) ans = a;
         else if (a == 0 && mine && s->req.uref && u->udict && s->req.uref->udict && !udict_cmp(u->udict, s->req.uref->udict) &&
-                 (s->type != UREQUEST_UBUF_MGR || (bm != NULL && bm != c->pfx.fm.block_mgr))) ans = 0;
+                 (s->type != UREQUEST_UBUF_MGR || (bm != NULL && bm != c->pfx.fm.block_mgr))) ans = s->type == UREQUEST_UBUF_MGR ? mgr_umem_code(c, bm) : 0;
         snprintf(what, sizeof what, "%sflow format rid=%d gen=%u ans=%d", s->type == UREQUEST_UBUF_MGR ? "ubuf_mgr + " : "", rid, gen, a);
         if (s->type == UREQUEST_UBUF_MGR) ubuf_mgr_release(bm);
         uref_free(u);
@@ -511,11 +887,7 @@ static int req_cb(struct urequest *urequest, va_list args)
 
 static void m_callback(struct ctx *c, int slot, int ans)
 {
-    if (slot >= NSLOT) {        /* a pipe's own request (genaux): its check function stores the provided format as flow definition */
-        c->rn[slot - NSLOT].own_ans = ans;
-        c->cls |= 1u << CL_OWN_REQUEST_ANSWERED;
-        return;
-    }
+    if (slot >= NSLOT) { m_own_provide(c, slot, ans); return; }     /* a pipe's own request */
     if (c->nexp >= MAXCB) { INTERNAL("expected-callback overflow"); return; }
     struct expcb *x = &c->exp[c->nexp++];
     memset(x, 0, sizeof *x);
@@ -532,14 +904,10 @@ static void m_callback(struct ctx *c, int slot, int ans)
     }
 }
 
-/* The model of a slot's registration state is separate from slot.reg (the real one) because the model runs after the real operation. */
-static bool m_slot_reg[NS];
-static struct ent m_slot_ent[NS];
-
 static void m_slot_register(struct ctx *c, int slot)
 {
     struct slot *s = &c->slot[slot];
-    struct ent e = { .slot = slot, .q = -1, .gen = m_slot_ent[slot].gen, .type = s->type, .dictv = s->dictv, .reg = false };
+    struct ent e = { .slot = slot, .q = -1, .gen = m_slot_ent[slot].gen, .type = s->type, .dictv = s->dictv, .reg = false, .krid = slot };
     m_slot_ent[slot] = e;
     m_slot_reg[slot] = true;
     m_deliver_reg(c, s->at, e);
@@ -584,6 +952,10 @@ static void begin_op(struct ctx *c)
 {
     memset(c->exp_throw, 0, sizeof c->exp_throw);
     memset(c->opt_throw, 0, sizeof c->opt_throw);
+    memset(c->exp_reg, 0, sizeof c->exp_reg);
+    memset(c->exp_unreg, 0, sizeof c->exp_unreg);
+    memset(c->act_reg, 0, sizeof c->act_reg);
+    memset(c->act_unreg, 0, sizeof c->act_unreg);
     c->nexp = 0; c->ncb = 0;
 }
 
@@ -606,15 +978,27 @@ static void model_deaths(struct ctx *c)
         if (r->held) { FAILC("life/premature-dead", "p%d:%s threw DEAD while the application still holds a reference", k, kind_name[r->kind]); return; }
         struct mnode *m = MN(c, k);
         /* a dying pipe withdraws what is left in its list: only its own request can be left in a legal history */
-        for (int i = m->n - 1; i >= 0; i--) {
+        while (m->n > 0) {      /* in list order, as clean_output pops them (the order is visible across a queue) */
+            int i = 0;
             struct ent e = m->l[i];
-            if (e.slot < NSLOT) { INTERNAL("p%d:%s died while the model still has request slot%d registered through it", k, kind_name[r->kind], e.slot); return; }
+            if (e.slot < NSLOT || PS_NODE(e.slot) != k) { INTERNAL("p%d:%s died while the model still has request slot%d registered through it", k, kind_name[r->kind], e.slot); return; }
             bool was = e.reg;
             ent_del(m, i);
-            if (m->out != T_NONE && was) m_deliver_unreg(c, m->out, e);
+            if (m->out != T_NONE && was) { c->cls |= CLS(CL_OWN_WITHDRAWN_AT_DEATH); m_deliver_unreg(c, m->out, e); }
             m_slot_reg[e.slot] = false;
         }
-        if (m->mk == MK_BIN && m->inner >= 0) { MN(c, m->inner)->out = T_NONE; MN(c, m->inner)->exists = false; m->inner = -1; }
+        if (m->mk == MK_HBIN) {     /* clean_bin_output withdraws the bin's own output requests */
+            struct bolist *b = &c->bo[k];
+            while (b->n > 0) {
+                struct ent e = b->l[0];
+                for (int i = 0; i + 1 < b->n; i++) b->l[i] = b->l[i + 1];
+                b->n--;
+                if (m->out != T_NONE) { c->cls |= CLS(CL_OWN_WITHDRAWN_AT_DEATH); m_deliver_unreg(c, m->out, e); }
+                m_slot_reg[e.slot] = false;
+            }
+        }
+        r->timer = false;
+        if ((m->mk == MK_BIN || m->mk == MK_HBIN) && m->inner >= 0) { MN(c, m->inner)->out = T_NONE; MN(c, m->inner)->exists = false; m->inner = -1; }
         m->out = T_NONE;
         m->exists = false;
 #if C12_QUEUE
@@ -640,6 +1024,7 @@ static void scan_records(struct ctx *c)
         if (r->kind != PFX_REGISTER && r->kind != PFX_UNREGISTER) continue;
         struct tail *t = r->sink == c->tl[0].sink ? &c->tl[0] : r->sink == c->tl[1].sink ? &c->tl[1] : NULL;
         if (!t) continue;
+        if (r->kind == PFX_REGISTER) c->act_reg[t - c->tl]++; else c->act_unreg[t - c->tl]++;
         if (r->kind == PFX_REGISTER) {
             if (t->nrt >= MAXENT) { INTERNAL("tail overflow"); return; }
             struct rt *x = &t->rt[t->nrt++];
@@ -665,7 +1050,7 @@ static bool key_match(const struct rt *x, const struct ent *e)
 {
     if (x->type != e->type) return false;
     if (!has_uref(e->type)) return true;
-    return x->rid == e->slot && x->gen == e->gen;
+    return x->rid == e->krid && x->gen == e->gen;
 }
 
 static void compare_tails(struct ctx *c, const char *what)
@@ -693,6 +1078,10 @@ static void compare_tails(struct ctx *c, const char *what)
             if (has_uref(e->type) && e->slot < NSLOT && c->slot[e->slot].reg && c->slot[e->slot].gen == e->gen && c->slot[e->slot].req.uref &&
                 (x->ptr->uref == NULL || x->ptr->uref->udict == NULL || udict_cmp(x->ptr->uref->udict, c->slot[e->slot].req.uref->udict)))
                 FAILC("tail/dictionary", "after %s: the %s request lodged at tail%d for slot%d does not carry the requester's flow-format dictionary", what, tname(e->type), ti, e->slot);
+            /* video_blank requires its ubuf_mgr for the flow format it was provided (check_flow_format): the request carries the tag of that answer */
+            if (e->slot >= NSLOT && e->type == UREQUEST_UBUF_MGR && c->rn[PS_NODE(e->slot)].kind == NK_VIDEO_BLANK && !c->ret && uref_ans(x->ptr->uref) != e->base)
+                FAILC("tail/dictionary", "after %s: the ubuf_mgr request of p%d:video_blank lodged at tail%d was built from the flow format of answer %d, the flow format it was provided when it issued this request is answer %d", what, PS_NODE(e->slot), ti,
+                      uref_ans(x->ptr->uref), e->base);
         }
         for (int i = 0; i < t->nm && !c->ret; i++)
             if (!used[i])
@@ -749,7 +1138,7 @@ static void compare_callbacks(struct ctx *c, const char *what)
         struct expcb *x = &c->exp[f];
         x->matched = true; r->matched = true;
         struct slot *s = &c->slot[r->slot];
-        if (r->ans >= 0 && s->type >= 0 && s->type < 5) c->cls |= 1u << (CL_T_UREF_MGR + s->type);
+        if (r->ans != -2 && s->type >= 0 && s->type < 5) c->cls |= 1u << (CL_T_UREF_MGR + s->type);
         if (r->ans > 0) c->cls |= 1u << CL_DEFERRED;
         if (s->replumbed) { c->cls |= 1u << CL_ANSWER_AFTER_REPLUMB; c->nt = true; }
         /* learn which lodged pointer serves which request */
@@ -768,19 +1157,58 @@ static void compare_callbacks(struct ctx *c, const char *what)
     }
 }
 
+/* Every time the model says a request is handed to a tail (first registration, re-issue after set_output / a new inner pipe, re-require of a pipe's
+ * own request) the tail must receive exactly one register_request, and one unregister_request for every withdrawal: a pipe that keeps asking after it
+ * was answered, or that does not ask again when it must, shows here even when the set of lodged requests ends up the same. */
+static void compare_counts(struct ctx *c, const char *what)
+{
+    for (int ti = 0; ti < 2 && !c->ret; ti++) {
+        if (c->act_reg[ti] != c->exp_reg[ti])
+            FAILC("tail/register-count", "%s: tail%d received %d register_request command(s), the model requires %d (a request was issued to this output %s than the helpers document)", what, ti, c->act_reg[ti], c->exp_reg[ti],
+                  c->act_reg[ti] > c->exp_reg[ti] ? "more often" : "less often");
+        else if (c->act_unreg[ti] != c->exp_unreg[ti])
+            FAILC("tail/unregister-count", "%s: tail%d received %d unregister_request command(s), the model requires %d", what, ti, c->act_unreg[ti], c->exp_unreg[ti]);
+    }
+}
+
 static void check_own_requests(struct ctx *c, const char *what)
 {
+    int timers = 0;
     for (int k = 0; k < c->nn && !c->ret; k++) {
         struct rnode *r = &c->rn[k];
-        if (r->kind != NK_GENAUX || r->dead || !r->held || r->nflowdefs == 0) continue;
+        if (r->dead) continue;
+        if (r->kind == NK_VOID_SOURCE && r->timer) timers++;
+        if (!r->held) continue;
+        if (r->kind == NK_HBIN) {
+            /* (the harness wrote this pipe: it may look) the uclock helper holds exactly the object of the last answer since the request was issued */
+            struct hbin *h = hbin_from_upipe(r->upipe);
+            for (int j = 0; j < 2 && !c->ret; j++) {
+                void *want = r->own[j].obj == -1 ? NULL : r->own_ptr[j];
+                void *has = j == 0 ? (void *)h->uclock : (void *)h->uref_mgr;
+                const char *on = j == 0 ? "uclock" : "uref_mgr";
+                if (has == want) continue;
+                if (!want) FAILC("own/unexpected-answer", "after %s: p%d:hbin holds %s %p although nobody answered its %s request since it was issued", what, k, on, has, on);
+                else if (!has) FAILC("own/missing-answer", "after %s: p%d:hbin holds no %s although its %s request was answered (with %p): the answer did not reach the requester", what, k, on, on, want);
+                else FAILC("own/wrong-answer", "after %s: p%d:hbin holds %s %p, the last answer to its %s request is %p", what, k, on, has, on, want);
+            }
+            continue;
+        }
+        if ((r->kind != NK_GENAUX && r->kind != NK_VIDEO_BLANK) || r->nflowdefs == 0) continue;
+        const char *kn = kind_name[r->kind];
         struct uref *fd = NULL;
         if (!ubase_check(upipe_get_flow_def(r->upipe, &fd))) continue;
         if (r->own_ans < 0) {
-            if (fd != NULL) FAILC("own/unexpected-answer", "after %s: p%d:genaux has an output flow definition although nobody answered its ubuf_mgr request since it was issued", what, k);
+            if (fd != NULL) FAILC("own/unexpected-answer", "after %s: p%d:%s has an output flow definition although nobody answered its ubuf_mgr request since it was issued", what, k, kn);
         } else {
-            if (fd == NULL) FAILC("own/missing-answer", "after %s: p%d:genaux has no output flow definition although its ubuf_mgr request was answered (answer %d): the answer did not reach the requester", what, k, r->own_ans);
-            else if (uref_ans(fd) != r->own_ans) FAILC("own/wrong-answer", "after %s: p%d:genaux stored the flow format of answer %d, the last answer to its request is %d", what, k, uref_ans(fd), r->own_ans);
+            if (fd == NULL) FAILC("own/missing-answer", "after %s: p%d:%s has no output flow definition although its ubuf_mgr request was answered (answer %d): the answer did not reach the requester", what, k, kn, r->own_ans);
+            else if (uref_ans(fd) != r->own_ans) FAILC("own/wrong-answer", "after %s: p%d:%s stored the flow format of answer %d, the last answer to its request is %d", what, k, kn, uref_ans(fd), r->own_ans);
         }
+    }
+    /* void_source: once both its uref_mgr and its uclock request were answered (and only then) its check function allocates the timer */
+    if (!c->ret) {
+        int act = fake_upump_timers(c->pfx.loop, NULL);
+        if (act < timers) FAILC("own/missing-answer", "after %s: no timer on the loop although the void source was given a uref manager and a clock: an answer did not reach it", what);
+        else if (act > timers) FAILC("own/unexpected-answer", "after %s: %d timer(s) on the loop although the void source still lacks an answer to its uref_mgr or uclock request", what, act);
     }
 }
 
@@ -793,6 +1221,7 @@ static void end_op(struct ctx *c, const char *what)
     if (!c->ret) compare_callbacks(c, what);
     if (!c->ret) compare_throws(c, what);
     if (!c->ret) compare_tails(c, what);
+    if (!c->ret) compare_counts(c, what);
     if (!c->ret) check_own_requests(c, what);
     c->ev_mark = c->pfx.nevents;
     c->rec_mark = c->pfx.nrecs;
@@ -831,13 +1260,18 @@ static void op_toggle(struct ctx *c)
         /* where: mostly the head */
         int at = 0, sel = b % 8;
         if (sel >= 5 && c->nn > 1) at = 1 + (sel - 5 + (b >> 6)) % (c->nn - 1);
-        if (!c->rn[at].held || c->rn[at].kind == NK_QSRC) at = 0;
-        if (!c->rn[at].held || c->rn[at].kind == NK_QSRC) {
+#define NO_INPUT(k) (c->rn[k].kind == NK_QSRC || c->rn[k].kind == NK_VOID_SOURCE)     /* sources do not take requests from upstream */
+        if (!c->rn[at].held || NO_INPUT(at)) at = 0;
+        if (!c->rn[at].held || NO_INPUT(at)) {
             at = -1;
-            for (int k = 0; k < c->nn; k++) if (c->rn[k].held && c->rn[k].kind != NK_QSRC) { at = k; break; }
+            for (int k = 0; k < c->nn; k++) if (c->rn[k].held && !NO_INPUT(k)) { at = k; break; }
             if (at < 0) return;
         }
         int dictv = (b >> 3) % 3;
+        bool above_blit = false;
+        for (int k = at; k < c->nn; k++) if (c->rn[k].kind == NK_BLIT) above_blit = true;
+        if (above_blit && type == UREQUEST_FLOW_FORMAT) type = UREQUEST_UBUF_MGR;       /* blit's flow_format negotiation is not modelled */
+        if (above_blit && type == UREQUEST_UBUF_MGR && dictv == 2 && !c->noexclude) { c->rep->excluded++; dictv = 0; }     /* open finding blit-forwards-unanswered-ubuf-mgr */
         int action = -1;
         if (c->actions_enabled && (b >> 5) == 7) action = (s->id + (a >> 6)) % NSLOT;      /* (a >> 6) == 0: itself */
         if (at > 0) c->cls |= 1u << CL_REGISTER_MID_CHAIN;
@@ -866,7 +1300,7 @@ static void op_set_output(struct ctx *c)
     if (IS_TAIL(tgt)) {     /* a tail has one upstream at a time */
         for (int pass = 0; pass < 2; pass++) {
             bool busy = !c->tl[tgt - TT0].held;
-            for (int o = 0; o < MAXMN; o++) if (o != k && c->mn[o].exists && c->mn[o].out == tgt && !(c->mn[k].mk == MK_BIN && o == c->mn[k].inner)) busy = true;
+            for (int o = 0; o < MAXMN; o++) if (o != k && c->mn[o].exists && c->mn[o].out == tgt && !((c->mn[k].mk == MK_BIN || c->mn[k].mk == MK_HBIN) && o == c->mn[k].inner)) busy = true;
             if (!busy) break;
             if (pass == 1) return;
             tgt = tgt == TT0 ? TT0 + 1 : TT0;
@@ -882,6 +1316,11 @@ static void op_set_output(struct ctx *c)
     snprintf(what, sizeof what, "set_output(p%d:%s, %s)", k, kind_name[r->kind], tgt_name(tgt));
     c->hash = vp_hash_mix(c->hash, 0x200 + k * 256 + (tgt & 0xff));
     int through = m->n;
+    if (m->out != tgt) {
+        bool own = c->bo[k].n > 0;
+        for (int i = 0; i < m->n; i++) if (m->l[i].slot >= NSLOT) own = true;
+        if (own) c->cls |= CLS(CL_OWN_SETOUT);
+    }
     if (through > 0 && m->out != tgt) {
         c->cls |= 1u << CL_SETOUT_WITH_REQ;
         if (tgt == T_NONE) c->cls |= 1u << CL_SETOUT_NULL_WITH_REQ;
@@ -900,6 +1339,27 @@ static int new_answer(struct ctx *c, int type)
     if (c->nans >= MAXANS) return -1;
     c->ans[c->nans].type = type; c->ans[c->nans].ptr = NULL; c->ans[c->nans].lat = 0;
     return c->nans++;
+}
+
+/* Which original request does a request lodged at a tail stand for?  Every proxy (upipe_helper_output, upipe_helper_bin_input) keeps a pointer to the
+ * request it stands for, a helper's own request keeps a pointer to its pipe, the harness' requests are known by address: all of them are alive as long
+ * as the request is lodged.  Returns a harness slot, a pseudo slot, or -1 (the request came through the queue, or the chain is not understood).  Only
+ * used to tell apart requests the tail cannot tell apart (no dictionary), never to predict anything. */
+static int origin_of(struct ctx *c, struct urequest *x)
+{
+    for (int d = 0; d < 32 && x != NULL; d++) {
+        for (int i = 0; i < NSLOT; i++) if (x == &c->slot[i].req) return i;
+        void *o = urequest_get_opaque(x, void *);
+        if (o == NULL) return -1;
+        for (int k = 0; k < c->nn; k++)
+            if (!c->rn[k].dead && o == (void *)c->rn[k].upipe) {
+                if (c->rn[k].kind == NK_QSRC || c->rn[k].kind == NK_QSINK) return -1;
+                for (int j = 0; j < NOWN; j++) if (m_slot_reg[PS(k, j)] && m_slot_ent[PS(k, j)].type == x->type) return PS(k, j);
+                return -1;
+            }
+        x = o;
+    }
+    return -1;
 }
 
 static void op_provide(struct ctx *c)
@@ -927,6 +1387,16 @@ static void op_provide(struct ctx *c)
             if (taken) continue;
             item.cand[item.ncand].slot = t->m[i].slot; item.cand[item.ncand].q = t->m[i].q; item.ncand++;
         }
+    /* a pipe's own request among several candidates: no callback of the harness will tell which one was served */
+    bool pseudo = false;
+    for (int i = 0; i < item.ncand; i++) if (item.cand[i].slot >= NSLOT) pseudo = true;
+    if (pseudo && item.ncand > 1) {
+        int org = origin_of(c, X), keep = -1;
+        for (int i = 0; i < item.ncand; i++) if (org >= 0 && item.cand[i].slot == org && item.cand[i].q < 0) keep = i;
+        if (keep >= 0) { item.cand[0] = item.cand[keep]; item.ncand = 1; }
+        else if (org >= 0 && org < NSLOT) { int n = 0; for (int i = 0; i < item.ncand; i++) if (item.cand[i].slot < NSLOT) item.cand[n++] = item.cand[i]; item.ncand = n; }
+        else { c->nans--; return; }     /* across the queue the candidates cannot be told apart: this answer is not generated */
+    }
     char what[96];
     snprintf(what, sizeof what, "provide(tail%d, lodged %s request%s, answer %d)", ti, tname(X->type), has_uref(X->type) ? " with flow format" : "", id);
     c->hash = vp_hash_mix(c->hash, 0x300 + a);
@@ -1003,22 +1473,32 @@ static void op_release(struct ctx *c)
     end_op(c, what);
 }
 
+static bool has_action(int kind)
+{
+    return kind == NK_BIN || kind == NK_GENAUX || kind == NK_VIDEO_BLANK || kind == NK_RTP_DECAPS || kind == NK_HBIN || kind == NK_TIME_LIMIT;
+}
+
+/* an operation on one pipe that makes it (re-)issue requests: a flow definition (bin: new inner pipe; genaux, video_blank, rtp_decaps: own request),
+ * attach_uclock (time_limit, hbin), dropping / building / replacing the inner pipe of hbin */
 static void op_flow_def(struct ctx *c)
 {
     uint8_t a = tp_u8(&c->t);
     int k = -1, n = 0;
-    for (int i = 0; i < c->nn; i++) if ((c->rn[i].kind == NK_BIN || c->rn[i].kind == NK_GENAUX) && c->rn[i].held) n++;
+    for (int i = 0; i < c->nn; i++) if (has_action(c->rn[i].kind) && c->rn[i].held) n++;
     if (!n) return;
     int w = a % n;
-    for (int i = 0; i < c->nn; i++) if ((c->rn[i].kind == NK_BIN || c->rn[i].kind == NK_GENAUX) && c->rn[i].held && w-- == 0) { k = i; break; }
+    for (int i = 0; i < c->nn; i++) if (has_action(c->rn[i].kind) && c->rn[i].held && w-- == 0) { k = i; break; }
     struct rnode *r = &c->rn[k];
     if (r->nflowdefs >= 6) return;      /* the recording probe tracks a bounded number of inner pipes */
+    int sub = (a >> 5) & 7;         /* hbin: 0 drop or build, 1 drop, 2 attach_uclock, 3 build or replace, 4 demand_uref_mgr, 5.. the same again */
+    if (sub >= 5) sub = (int[]){ 0, 2, 4 }[sub - 5];
     char what[64];
     snprintf(what, sizeof what, "set_flow_def(p%d:%s)", k, kind_name[r->kind]);
-    c->hash = vp_hash_mix(c->hash, 0x500 + k);
+    c->hash = vp_hash_mix(c->hash, 0x500 + k + (r->kind == NK_HBIN ? sub * 16 : 0));
     begin_op(c);
     struct mnode *m = MN(c, k);
-    if (r->kind == NK_BIN) {
+    switch (r->kind) {
+    case NK_BIN: {
         struct uref *fd = uref_alloc_control(c->pfx.fm.uref_mgr);
         uref_flow_set_def(fd, "block.mpegts.");     /* ts_align: already aligned input -> the inner pipe is an idem */
         uref_attr_set_unsigned(fd, r->nflowdefs, UDICT_TYPE_UNSIGNED, "x.fd");
@@ -1029,10 +1509,10 @@ static void op_flow_def(struct ctx *c)
         if (!ubase_check(err)) { FAILC("flowdef/refused", "%s refused (%d)", what, err); return; }
         r->nflowdefs++;
         m_bin_set_flow_def(c, k);
-    } else {
+        break; }
+    case NK_GENAUX: {
         /* genaux issues its own ubuf_mgr request for the flow definition "block.aux." */
-        int ps = NSLOT + k;
-        struct slot *s = &c->slot[ps];
+        int ps = PS(k, 0);
         uint32_t gen = ++c->gen;
         struct uref *fd = mk_dict(c, 1, ps, gen);
         int err = upipe_set_flow_def(r->upipe, fd);
@@ -1041,13 +1521,119 @@ static void op_flow_def(struct ctx *c)
         if (!ubase_check(err)) { FAILC("flowdef/refused", "%s refused (%d)", what, err); return; }
         r->nflowdefs++;
         /* require_ubuf_mgr: withdraw the previous request, issue the new one through register_output_request */
-        if (m_slot_reg[ps]) { m_slot_reg[ps] = false; m_uoq(c, k, m_slot_ent[ps]); }
         r->own_ans = -1;
-        s->id = ps; s->type = UREQUEST_UBUF_MGR; s->dictv = 1; s->at = k; s->gen = gen; s->inited = true; s->action = -1;
-        struct ent e = { .slot = ps, .q = -1, .gen = gen, .type = UREQUEST_UBUF_MGR, .dictv = 1, .reg = false };
-        m_slot_ent[ps] = e; m_slot_reg[ps] = true;
-        m_roq(c, k, e);
+        own_require(c, k, 0, UREQUEST_UBUF_MGR, 1, ps, gen);
+        break; }
+    case NK_VIDEO_BLANK: {
+        /* upipe_vblk_set_flow_def: the input definition (void.) merged with the attributes given at allocation (pic. + planes) is required as flow format;
+         * the ubuf_mgr request of an earlier definition stays where it is until that flow format is answered */
+        int ps = PS(k, 0);
+        uint32_t gen = ++c->gen;
+        struct uref *fd = mk_dict(c, 5, ps, gen);
+        int err = upipe_set_flow_def(r->upipe, fd);
+        uref_free(fd);
+        R("  %s (own flow_format request: pseudo slot%d gen %u) -> %d\n", what, ps, gen, err);
+        if (!ubase_check(err)) { FAILC("flowdef/refused", "%s refused (%d)", what, err); return; }
+        r->nflowdefs++;
+        own_require(c, k, 0, UREQUEST_FLOW_FORMAT, 3, ps, gen);
+        break; }
+    case NK_RTP_DECAPS: {
+        /* upipe_rtpd_set_flow_def: demand_ubuf_mgr = require_ubuf_mgr, then "also send it via a probe if nothing has been received synchronously" */
+        int ps = PS(k, 0);
+        uint32_t gen = ++c->gen;
+        struct uref *fd = mk_dict(c, 4, ps, gen);
+        int err = upipe_set_flow_def(r->upipe, fd);
+        uref_free(fd);
+        R("  %s (own ubuf_mgr request, demanded: pseudo slot%d gen %u) -> %d\n", what, ps, gen, err);
+        if (!ubase_check(err)) { FAILC("flowdef/refused", "%s refused (%d)", what, err); return; }
+        r->nflowdefs++;
+        own_require(c, k, 0, UREQUEST_UBUF_MGR, 4, ps, gen);
+        if (r->own[0].obj == -1 && !c->ret) { c->cls |= CLS(CL_DEMAND_THROWS_AGAIN); m_throw(c, m->probe, m_slot_ent[ps], false); }
+        break; }
+    case NK_TIME_LIMIT: {
+        /* UPIPE_ATTACH_UCLOCK: require_uclock whatever it holds, then (every successful command) the check function */
+        snprintf(what, sizeof what, "attach_uclock(p%d:%s)", k, kind_name[r->kind]);
+        int err = upipe_attach_uclock(r->upipe);
+        R("  %s -> %d\n", what, err);
+        own_require(c, k, 0, UREQUEST_UCLOCK, 0, PS(k, 0), 0);
+        m_after_control(c, k);
+        break; }
+    case NK_HBIN:
+        if (sub == 0) sub = m->inner >= 0 ? 1 : 3;
+        if (sub == 2) {
+            snprintf(what, sizeof what, "attach_uclock(p%d:%s)", k, kind_name[r->kind]);
+            int err = upipe_attach_uclock(r->upipe);
+            R("  %s (own uclock request through register_bin_output_request) -> %d\n", what, err);
+            own_require(c, k, 0, UREQUEST_UCLOCK, 0, PS(k, 0), 0);
+        } else if (sub == 4) {
+            /* demand_uref_mgr = require_uref_mgr, "and also send it via a probe if nothing has been received synchronously" */
+            snprintf(what, sizeof what, "demand_uref_mgr(p%d:%s)", k, kind_name[r->kind]);
+            bool got = hbin_demand_uref_mgr(r->upipe);
+            R("  %s (own uref_mgr request through register_bin_output_request) -> %s\n", what, got ? "has a manager" : "no manager yet");
+            own_require(c, k, 1, UREQUEST_UREF_MGR, 0, PS(k, 1), 0);
+            if (r->own[1].obj == -1 && !c->ret) { c->cls |= CLS(CL_DEMAND_THROWS_AGAIN); m_throw(c, m->probe, m_slot_ent[PS(k, 1)], false); }
+            if (!c->ret && got != (r->own[1].obj != -1))
+                FAILC("own/demand-result", "%s returns %s, but its uref_mgr request was %s", what, got ? "true" : "false", r->own[1].obj != -1 ? "answered synchronously" : "not answered");
+        } else if (sub == 1) {
+            snprintf(what, sizeof what, "drop_inner(p%d:%s)", k, kind_name[r->kind]);
+            if (m->inner < 0) return;
+            if (m->n > 0) { c->cls |= CLS(CL_HBIN_DROP_WITH_REQ); mark_replumbed(c, k); }
+            R("  %s: store_bin_input(NULL), store_bin_output(NULL)\n", what);
+            hbin_drop_inner(r->upipe);
+            m_bin_drop_inner(c, k);
+        } else {
+            snprintf(what, sizeof what, "%s_inner(p%d:%s)", m->inner >= 0 ? "replace" : "build", k, kind_name[r->kind]);
+            if (m->n > 0) { if (m->inner >= 0) c->cls |= CLS(CL_HBIN_REPLACE_WITH_REQ); else if (r->nflowdefs > 0) c->cls |= CLS(CL_HBIN_BUILD_WITH_REQ); mark_replumbed(c, k); }
+            R("  %s: store_bin_input(new idem), store_bin_output(new idem)\n", what);
+            hbin_build_inner(r->upipe);
+            r->nflowdefs++;
+            m_bin_set_flow_def(c, k);
+        }
+        break;
     }
+    end_op(c, what);
+}
+
+/* uprobe_uref_mgr_set / uprobe_ubuf_mem_set / uprobe_uclock_set: the object a service probe answers with is replaced (another object, none, the first
+ * one again).  Requests thrown from now on are answered with the new object, or not at all; what was provided before stays provided. */
+static void op_svc_set(struct ctx *c, uint8_t v)
+{
+    int which = v % 3, choice = (v / 3) % 3;       /* v in 0..7 */
+    if (c->svc_probe[which] == NULL) return;
+    if (which == SVC_UBUF_MEM && c->has_blit && !c->noexclude) { c->rep->excluded++; return; }     /* open finding blit-forwards-unanswered-ubuf-mgr */
+    static const char *pn[] = { "uprobe_uref_mgr_set", "uprobe_ubuf_mem_set", "uprobe_uclock_set" };
+    static const char *cn[] = { "another object", "NULL", "the original object" };
+    void *obj = NULL;
+    switch (which) {
+    case SVC_UREF_MGR:
+        if (!c->alt_uref_mgr) c->alt_uref_mgr = uref_std_mgr_alloc(0, c->pfx.fm.udict_mgr, 0);
+        obj = choice == 0 ? (void *)c->alt_uref_mgr : choice == 1 ? NULL : (void *)c->pfx.fm.uref_mgr;
+        break;
+    case SVC_UBUF_MEM:
+        if (!c->alt_umem) c->alt_umem = umem_count_mgr_alloc();
+        obj = choice == 0 ? (void *)c->alt_umem : choice == 1 ? NULL : (void *)c->pfx.fm.umem_mgr;
+        break;
+    default:
+        if (!c->alt_uclock) c->alt_uclock = fake_uclock_alloc(c->pfx.loop, 4242);
+        obj = choice == 0 ? (void *)c->alt_uclock : choice == 1 ? NULL : (void *)c->pfx.uclock;
+        break;
+    }
+    if (choice == 0 && obj == NULL) return;
+    char what[64];
+    snprintf(what, sizeof what, "%s(%s)", pn[which], cn[choice]);
+    c->hash = vp_hash_mix(c->hash, 0x700 + which * 4 + choice);
+    begin_op(c);
+    R("  %s\n", what);
+    switch (which) {
+    case SVC_UREF_MGR: uprobe_uref_mgr_set(c->svc_probe[which], obj); break;
+    case SVC_UBUF_MEM: uprobe_ubuf_mem_set(c->svc_probe[which], obj); break;
+    default: uprobe_uclock_set(c->svc_probe[which], obj); break;
+    }
+    if (obj != c->svc_obj[which]) c->svc_gen[which]++;
+    c->svc_obj[which] = obj;
+    c->svc_on[which] = obj != NULL;
+    if (obj == NULL) c->svc_was_off[which] = true;
+    c->cls |= CLS(CL_SVC_SET);
     end_op(c, what);
 }
 
@@ -1102,6 +1688,7 @@ static bool op_step(struct ctx *c, bool sideB)
             if (!lodged) { item.tail = -1; item.ptr = NULL; }
             if (item.ncand == 1 && !item.optional) {
                 int before = c->nexp;
+                if (item.cand[0].slot >= NSLOT) c->cls |= CLS(CL_OWN_ACROSS_QUEUE);
                 m_callback(c, item.cand[0].slot, u.ans);
                 if (c->nexp > before) { c->exp[before].tail = item.tail; c->exp[before].ptr = item.ptr; c->exp[before].cand[0].q = item.cand[0].q; }
             } else if (c->nexp < MAXCB) c->exp[c->nexp++] = item;
@@ -1138,8 +1725,57 @@ static struct upipe_mgr *kind_mgr(int kind)
     case NK_DUP: return upipe_dup_mgr_alloc();
     case NK_GENAUX: return upipe_genaux_mgr_alloc();
     case NK_BIN: return upipe_ts_align_mgr_alloc();
+    case NK_TIME_LIMIT: return upipe_time_limit_mgr_alloc();
+    case NK_VIDEO_BLANK: return upipe_vblk_mgr_alloc();
+    case NK_RTP_DECAPS: return upipe_rtpd_mgr_alloc();
+    case NK_VOID_SOURCE: return upipe_voidsrc_mgr_alloc();
+    case NK_HBIN: return &hbin_mgr;
+    case NK_BLIT: return upipe_blit_mgr_alloc();
     }
     return NULL;
+}
+
+/* kind bytes below NK_OLD_SPAN decode as they always did; the rest select the kinds with requests of their own (void_source only as head of the chain) */
+static int decode_kind(struct ctx *c, uint8_t b, int k, const int *kinds)
+{
+    if (b < NK_OLD_SPAN) return b % NK_NKINDS;
+    if ((b - NK_OLD_SPAN) % 6 == 3 && ((b - NK_OLD_SPAN) / 6) % 3 == 2) {
+        /* blit: nothing upstream of it may issue flow_format requests of its own */
+        bool ok = true;
+        for (int i = 0; i < k; i++) if (kinds[i] == NK_VIDEO_BLANK) ok = false;
+        /* open finding blit-forwards-unanswered-ubuf-mgr: not constructed unless every ubuf_mgr request that reaches it is answered by uprobe_ubuf_mem */
+        if (ok && !c->noexclude && !c->pfx.cfg.with_ubuf_mem) { c->rep->excluded++; ok = false; }
+        if (ok) return NK_BLIT;
+    }
+    static const int nk[6] = { NK_TIME_LIMIT, NK_VIDEO_BLANK, NK_HBIN, NK_RTP_DECAPS, NK_VOID_SOURCE, NK_HBIN };
+    int kind = nk[(b - NK_OLD_SPAN) % 6];
+    if (k == 0 && (b - NK_OLD_SPAN) % 6 == 0) kind = NK_VOID_SOURCE;
+    if (kind == NK_VOID_SOURCE && k != 0) kind = NK_TIME_LIMIT;
+    return kind;
+}
+
+static struct upipe *alloc_node(struct ctx *c, int kind, struct uprobe *probe)
+{
+    switch (kind) {
+    case NK_VIDEO_BLANK: {      /* allocated with the attributes of the pictures it makes: enough for uprobe_ubuf_mem to build a picture manager */
+        struct uref *fd = uref_pic_flow_alloc_def(c->pfx.fm.uref_mgr, 1);
+        if (!fd) return NULL;
+        uref_pic_flow_add_plane(fd, 1, 1, 1, "y8");
+        uref_pic_flow_set_hsize(fd, 16);
+        uref_pic_flow_set_vsize(fd, 16);
+        struct upipe *u = upipe_flow_alloc(kind_mgr(kind), probe, fd);
+        uref_free(fd);
+        return u; }
+    case NK_VOID_SOURCE: {
+        struct uref *fd = uref_alloc_control(c->pfx.fm.uref_mgr);
+        if (!fd) return NULL;
+        uref_flow_set_def(fd, "void.");
+        uref_clock_set_duration(fd, UCLOCK_FREQ);    /* the timer is never due: the harness does not advance the clock */
+        struct upipe *u = upipe_flow_alloc(kind_mgr(kind), probe, fd);
+        uref_free(fd);
+        return u; }
+    }
+    return upipe_void_alloc(kind_mgr(kind), probe);
 }
 
 static int run(const uint8_t *tape, size_t len, struct vp_report *rep, unsigned flags)
@@ -1149,7 +1785,7 @@ static int run(const uint8_t *tape, size_t len, struct vp_report *rep, unsigned 
     memset(m_slot_reg, 0, sizeof m_slot_reg);
     memset(m_slot_ent, 0, sizeof m_slot_ent);
     tp_init(&c->t, tape, len);
-    c->rep = rep; c->render = flags & VP_RENDER; c->thorough = flags & VP_THOROUGH; c->noexclude = flags & VP_NO_EXCLUDE;
+    c->rep = rep; c->render = flags & VP_RENDER; c->thorough = flags & VP_THOROUGH; c->noexclude = true;   /* the finding blit-forwards-unanswered-ubuf-mgr is fixed in the repository: its pattern is generated */
     c->hash = VP_HASH_INIT;
     c->qsink = c->qsrc = -1;
     c->nans = 1;
@@ -1158,6 +1794,17 @@ static int run(const uint8_t *tape, size_t len, struct vp_report *rep, unsigned 
     struct pfx_cfg cfg = { .pool_depth = (int[]){ 0, 1, 4 }[cfgb % 3], .prepend = 0, .append = 0, .align = 0,
                            .with_uref_mgr = !((cfgb / 3) & 1), .with_ubuf_mem = !((cfgb / 3) & 2), .with_uclock = !((cfgb / 3) & 4), .with_upump_mgr = true };
     if (pfx_init(&c->pfx, &cfg) != 0) return vp_internal(rep, "pfx_init");
+    {   /* the service probes, outermost first (engine/pipefix.c): uref_mgr, ubuf_mem, upump_mgr, uclock */
+        struct uprobe *p = c->pfx.services;
+        if (cfg.with_uref_mgr) { c->svc_probe[SVC_UREF_MGR] = p; p = p->next; }
+        if (cfg.with_ubuf_mem) { c->svc_probe[SVC_UBUF_MEM] = p; p = p->next; }
+        if (cfg.with_upump_mgr) p = p->next;
+        if (cfg.with_uclock) c->svc_probe[SVC_UCLOCK] = p;
+        c->svc_on[SVC_UREF_MGR] = cfg.with_uref_mgr; c->svc_on[SVC_UBUF_MEM] = cfg.with_ubuf_mem; c->svc_on[SVC_UCLOCK] = cfg.with_uclock;
+        c->svc_obj[SVC_UREF_MGR] = c->svc_orig[SVC_UREF_MGR] = c->pfx.fm.uref_mgr;
+        c->svc_obj[SVC_UBUF_MEM] = c->svc_orig[SVC_UBUF_MEM] = c->pfx.fm.umem_mgr;
+        c->svc_obj[SVC_UCLOCK] = c->svc_orig[SVC_UCLOCK] = c->pfx.uclock;
+    }
     c->hash = vp_hash_mix(c->hash, cfgb | (polb << 8) | (shapeb << 16));
     /* tails: byte 0 = both hold requests (deferred provider) */
     static const int pol[3] = { PFX_REQ_HOLD, PFX_REQ_THROW, PFX_REQ_UNHANDLED };
@@ -1191,7 +1838,15 @@ static int run(const uint8_t *tape, size_t len, struct vp_report *rep, unsigned 
 #endif
     c->nn = nn;
     if (nn >= 3) c->cls |= 1u << CL_CHAIN3;
-    for (int k = 0; k < nn; k++) if (kinds[k] < 0) { kinds[k] = tp_u8(&c->t) % NK_NKINDS; c->hash = vp_hash_mix(c->hash, kinds[k]); }
+    bool prebuilt[MAXN] = { false }, stops[MAXN] = { false };
+    for (int k = 0; k < nn; k++) if (kinds[k] < 0) {
+        uint8_t kb = tp_u8(&c->t);
+        kinds[k] = decode_kind(c, kb, k, kinds);
+        if (kinds[k] == NK_BLIT) c->has_blit = true;
+        prebuilt[k] = kinds[k] == NK_HBIN && (kb - NK_OLD_SPAN) % 6 == 5;     /* a bin that starts with an inner pipe */
+        stops[k] = kinds[k] == NK_HBIN && ((kb - NK_OLD_SPAN) / 6) % 3 == 2;    /* a bin with control_ubuf_mgr in front */
+        c->hash = vp_hash_mix(c->hash, kinds[k] + (prebuilt[k] ? 64 : 0) + (stops[k] ? 128 : 0));
+    }
     /* the queue source is allocated first: the queue sink needs it */
     for (int pass = 0; pass < 2 && !c->ret; pass++)
         for (int k = 0; k < nn && !c->ret; k++) {
@@ -1199,6 +1854,7 @@ static int run(const uint8_t *tape, size_t len, struct vp_report *rep, unsigned 
             if ((pass == 0) != (kinds[k] == NK_QSRC)) continue;
             r->kind = kinds[k];
             r->own_ans = -1;
+            for (int j = 0; j < NOWN; j++) r->own[j].obj = -1;
             r->sideB = c->qsrc >= 0 && k >= c->qsrc;
             struct uprobe *probe = pfx_probe_alloc(&c->pfx, &r->probe);
 #if C12_QUEUE
@@ -1206,14 +1862,16 @@ static int run(const uint8_t *tape, size_t len, struct vp_report *rep, unsigned 
             else if (r->kind == NK_QSINK) r->upipe = upipe_qsink_alloc(upipe_qsink_mgr_alloc(), probe, c->rn[c->qsrc].upipe);
             else
 #endif
-            r->upipe = upipe_void_alloc(kind_mgr(r->kind), probe);
+            r->upipe = alloc_node(c, r->kind, probe);
             if (!r->upipe) { INTERNAL("alloc %s", kind_name[r->kind]); break; }
             r->held = true;
             struct mnode *m = MN(c, k);
             m->exists = true; m->out = T_NONE; m->probe = r->probe; m->inner = -1;
-            m->mk = r->kind == NK_GENAUX ? MK_GENAUX : r->kind == NK_BIN ? MK_BIN : r->kind == NK_QSINK ? MK_QSINK : r->kind == NK_QSRC ? MK_QSRC : MK_PASS;
+            if (r->kind == NK_HBIN && stops[k]) { hbin_from_upipe(r->upipe)->stops_ubuf = true; m->stops = (1u << UREQUEST_UBUF_MGR) | (1u << UREQUEST_FLOW_FORMAT); }
+            if (r->kind == NK_BLIT) m->stops = 1u << UREQUEST_UBUF_MGR;
+            m->mk = r->kind == NK_GENAUX ? MK_GENAUX : r->kind == NK_BIN ? MK_BIN : r->kind == NK_HBIN ? MK_HBIN : r->kind == NK_QSINK ? MK_QSINK : r->kind == NK_QSRC ? MK_QSRC : MK_PASS;
         }
-    for (int k = 0; k < nn; k++) R("  p%d = %s (probe %d)%s\n", k, kind_name[c->rn[k].kind], c->rn[k].probe, c->rn[k].sideB ? "  [loop B]" : "");
+    for (int k = 0; k < nn; k++) R("  p%d = %s (probe %d)%s%s\n", k, kind_name[c->rn[k].kind], c->rn[k].probe, c->rn[k].sideB ? "  [loop B]" : "", MN(c, k)->stops ? "  [control_ubuf_mgr in front]" : "");
     for (int i = 0; i < NS; i++) { c->slot[i].id = i; c->slot[i].action = -1; }
     begin_op(c);
     /* initial plumbing: the chain, the last pipe to tail0 */
@@ -1224,11 +1882,29 @@ static int run(const uint8_t *tape, size_t len, struct vp_report *rep, unsigned 
         m_node_set_output(c, k, tgt);
     }
     end_op(c, "initial plumbing");
+    for (int k = 0; k < nn && !c->ret; k++)
+        if (prebuilt[k]) {
+            begin_op(c);
+            R("  build_inner(p%d:%s): store_bin_input(new idem), store_bin_output(new idem)\n", k, kind_name[c->rn[k].kind]);
+            hbin_build_inner(c->rn[k].upipe);
+            c->rn[k].nflowdefs++;
+            m_bin_set_flow_def(c, k);
+            end_op(c, "build_inner (initial)");
+        }
 
     int maxops = c->thorough ? MAXOPS_T : MAXOPS_Q;
-    while (!tp_done(&c->t) && c->nops < maxops && !c->ret) {
+    while (!tp_done(&c->t) && c->nops < maxops && !c->ret && pfx_log_room(&c->pfx)) {
         c->nops++;
-        uint8_t op = tp_u8(&c->t) % 16;
+#if C12_QUEUE
+        /* the out-of-band queues of the repository hold 255 messages; a message that does not fit is lost (a warning says so): not generated */
+        if (c->dqt - c->dqh > 100 || c->uqt - c->uqh > 100) { R("  (many messages in flight: both loops run until nothing is runnable)\n"); op_drain(c); if (c->ret) break; }
+        if (c->dqh == c->dqt) c->dqh = c->dqt = 0;
+        if (c->uqh == c->uqt) c->uqh = c->uqt = 0;
+#endif
+        uint8_t opb = tp_u8(&c->t);
+        if (opb >= 248) { op_svc_set(c, opb - 248); continue; }
+        if (opb >= 224) { op_flow_def(c); continue; }
+        uint8_t op = opb % 16;
         switch (op) {
         case 0: case 1: case 2: case 3: op_toggle(c); break;
         case 4: case 5: case 14: op_set_output(c); break;
@@ -1292,7 +1968,20 @@ static int run(const uint8_t *tape, size_t len, struct vp_report *rep, unsigned 
     loopb_ref = !urefcount_single(c->loopB->refcount);
     upump_mgr_release(c->loopB);
 #endif
+    /* the service probes get their first objects back; the alternates must then be unreferenced */
+    if (c->svc_probe[SVC_UREF_MGR]) uprobe_uref_mgr_set(c->svc_probe[SVC_UREF_MGR], c->pfx.fm.uref_mgr);
+    if (c->svc_probe[SVC_UBUF_MEM]) uprobe_ubuf_mem_set(c->svc_probe[SVC_UBUF_MEM], c->pfx.fm.umem_mgr);
+    if (c->svc_probe[SVC_UCLOCK]) uprobe_uclock_set(c->svc_probe[SVC_UCLOCK], c->pfx.uclock);
+    const char *alt_audit = NULL;
+    if (c->alt_uref_mgr) { if (!urefcount_single(c->alt_uref_mgr->refcount)) alt_audit = "the uref manager given to uprobe_uref_mgr_set is still referenced"; uref_mgr_release(c->alt_uref_mgr); }
+    if (c->alt_uclock) { if (!urefcount_single(c->alt_uclock->refcount)) alt_audit = "the clock given to uprobe_uclock_set is still referenced"; uclock_release(c->alt_uclock); }
+    if (c->alt_umem) {
+        if (umem_count_stats(c->alt_umem)->live != 0) alt_audit = "memory of the umem manager given to uprobe_ubuf_mem_set is still allocated";
+        else if (!umem_count_single(c->alt_umem)) alt_audit = "the umem manager given to uprobe_ubuf_mem_set is still referenced";
+        umem_mgr_release(c->alt_umem);
+    }
     const char *audit = pfx_clean(&c->pfx);
+    if (!audit) audit = alt_audit;
     if (!c->ret) {
         if (audit && !strncmp(audit, "INTERNAL", 8)) c->ret = vp_internal(rep, "%s", audit);
         else if (audit) FAILC("audit", "%s", audit);
